@@ -385,7 +385,12 @@ def gen_classical(rng, syms, x):
                               else (rng.choice(others) if others else x), syms)
                    if (i == 0 or rng.random() < 0.5) else rng.choice([0, 1, 2, 0.5])
                    for i in range(size)]
-        box = g.ClassicalGate(rng.choice("fgh"), span, out, entries)
+        if all(v.is_real for v in syms) and rng.random() < .4:
+            # the gate occurs as a dagger (real symbols only, so that the
+            # conjugation commutes with the derivative)
+            box = g.ClassicalGate(rng.choice("fgh"), out, span, entries).dagger()
+        else:
+            box = g.ClassicalGate(rng.choice("fgh"), span, out, entries)
         off = rng.randint(0, width - span)
         d = d >> Id(bit ** off) @ box @ Id(bit ** (width - off - span))
         width = width - span + out
@@ -672,6 +677,11 @@ def compare_gradient(ctx, rng, d, x, G, circuit, mixed, base, frozen=None):
            expected=lambda: safe_repr(expected[0][:8], 300),
            point=lambda: safe_repr(envs[0], 200),
            gradient=lambda: safe_repr(G, 500), **extra, **base)
+    if ok and circuit:
+        # (not for tensor diagrams: their gradients are bubbles that
+        # differentiate the evaluated inside, which no longer depends on the
+        # variable once it has been substituted)
+        lambdified_gradient(ctx, G, syms, envs, got, circuit, mixed, base)
     # finite differences of numeric instances (no symbolic evaluation involved)
     inst = Instancer(ctx, d, syms, circuit, mixed)
     try:
@@ -687,6 +697,33 @@ def compare_gradient(ctx, rng, d, x, G, circuit, mixed, base, frozen=None):
            max_diff=lambda: max(sym.max_diff(r[1], r[2]) for r in results),
            gradient=lambda: safe_repr(G, 500), **extra, **base)
     return True
+
+
+def lambdified_gradient(ctx, G, syms, envs, got, circuit, mixed, base):
+    """
+    Histories: the gradient is lambdified ONCE (as a training loop does) and
+    the function is called at every point; each call evaluates to the value
+    the gradient has at that point.
+    """
+    ordered = sym.sort_symbols(syms)
+    try:
+        function = G.lambdify(*ordered)
+        values = []
+        for env in envs:
+            inst = function(*[env[s] for s in ordered])
+            flat, _ = evaluate(inst, circuit, mixed)
+            values.append(numpy.zeros(got[0].shape, dtype=complex)
+                          if flat is None else sym.numeric(flat))
+    except Exception as err:
+        ctx.count("lambdified-gradient-unavailable:" + type(err).__name__)
+        return
+    ok = all(v.shape == g.shape and sym.close(v, g) for v, g in zip(values, got))
+    expect(ctx, "grad-vs-sympy", ok, failure="lambdified-gradient-differs",
+           calls=len(values),
+           call_that_differs=lambda: [k for k, (v, g) in enumerate(zip(values, got))
+                                      if v.shape != g.shape or not sym.close(v, g)],
+           gradient=lambda: safe_repr(G, 500), **base)
+    ctx.count("lambdified-gradients-called-repeatedly")
 
 
 def frozen_matches(frozen, x, envs, got, circuit, mixed):
@@ -807,6 +844,7 @@ def circuit_case(ctx, rng, arm, syms, x):
         return False
     reached = False
     modes = [mode]
+    tried_other = False
     while modes:
         mode = modes.pop(0)
         params = {"mixed": False} if mode == "pure" else {}
@@ -822,6 +860,18 @@ def circuit_case(ctx, rng, arm, syms, x):
             if mode == "mixed" and not d.is_mixed:
                 modes.append("pure")          # still check the case in pure mode
             continue
+        width = max([len(d.dom)] + [len(l) + len(b.cod) + len(r)
+                                    for l, b, r in getattr(d, "layers", [])]
+                    ) if hasattr(d, "layers") else 9
+        if not tried_other and not d.is_mixed and arm != "classical"\
+                and width <= 2 and len(getattr(d, "boxes", [])) <= 6:
+            # histories: the SAME circuit object is differentiated in the
+            # other mode as well (pure after mixed, mixed after pure)
+            tried_other = True
+            other = "pure" if mode == "mixed" else "mixed"
+            if other not in modes:
+                modes.append(other)
+                ctx.count("both-gradient-modes-on-one-object")
         if compare_gradient(ctx, rng, d, x, G, True, mixed, base):
             reached = True
             ctx.mark("{}|{}|{}|{}".format(arm, mode, x, base["diagram"]))
